@@ -19,6 +19,11 @@ def _first(kind: str):
     def first(i: int):
         if kind == 'dict' and i % 3 == 2:
             return [{'k': 'select', 'box': 2, 'ro': i % 2 == 0}]    # SELECT/EXAMINE read-only Trash
+        if kind == 'maildir' and i % 5 == 1:
+            # housekeeping commands first: CHECK (maildir cleanup) and NOOP in the selection of
+            # INBOX, which holds an externally delivered file without ':2,' suffix in most runs
+            return [{'k': 'select', 'box': 0, 'ro': True}, {'k': 'check'}, {'k': 'noop'},
+                    {'k': 'fetch', 'uid': True, 'ss': [(1, '*')], 'attrs': 1}]
         return [{'k': 'select', 'box': i % 3 if kind == 'maildir' else i % 2, 'ro': True}]
     return first
 
